@@ -149,7 +149,18 @@ def ctxLen (instr : String) : Nat :=
 
 /-! ### adversarial prover: explicit offsets on the masking commitments -/
 
-def offs (l : List CPt) (i : Nat) : CPt := l.getD i 0
+/-- an offset argument: a point added to the honest masking commitment, or `raw:<hex>`, the 32 bytes to send
+    (and to absorb) in its place — how an adversary puts a string that decodes to no group element there -/
+def offOfHex (s : String) : Option (CPt ⊕ Bytes) :=
+  if s.startsWith "raw:" then
+    (ofHex (s.drop 4).toString).bind fun b => if b.length == 32 then some (.inr b) else none
+  else (ptOfHex s).map .inl
+
+def encY (l : List (CPt ⊕ Bytes)) (i : Nat) (p : CPt) : Bytes :=
+  match l[i]? with
+  | some (.inr b) => b
+  | some (.inl q) => PtCodec.enc (p + q)
+  | none => PtCodec.enc p
 
 /-- `mprove` : statement points, witness scalars, nonces, then offsets (points) for each Y.
     The witness need not satisfy the statement. -/
@@ -159,14 +170,14 @@ def mproveSigma (instr : String) (a : List String) : Option Bytes :=
   match instr, a with
   | "zero", [s, P, C, D, y, o0, o1] => do
     let s ← scOfHex s; let P ← ptOfHex P; let C ← ptOfHex C; let D ← ptOfHex D; let y ← scOfHex y
-    let o ← allSome [ptOfHex o0, ptOfHex o1]
-    let ypB := PtCodec.enc (y • P + offs o 0); let ydB := PtCodec.enc (y • D + offs o 1)
+    let o ← allSome [offOfHex o0, offOfHex o1]
+    let ypB := encY o 0 (y • P); let ydB := encY o 1 (y • D)
     let c := (ZeroCt.challenges CT P ⟨C, D⟩ ypB ydB (0 : CSc)).1
     pure (PtCodec.enc P ++ PtCodec.enc C ++ PtCodec.enc D ++ ypB ++ ydB ++ ScCodec.enc (c * s + y))
   | "pubkey", [w, P, y, o0] => do
     -- `w` is the claimed s⁻¹ (so that any P can be paired with any witness)
-    let w ← scOfHex w; let P ← ptOfHex P; let y ← scOfHex y; let o0 ← ptOfHex o0
-    let yB := PtCodec.enc (y • H + o0)
+    let w ← scOfHex w; let P ← ptOfHex P; let y ← scOfHex y; let o ← allSome [offOfHex o0]
+    let yB := encY o 0 (y • H)
     let c := PubkeyValidity.challenge CSc CT P yB
     pure (PtCodec.enc P ++ yB ++ ScCodec.enc (c * w + y))
   | "ctct", [s, x, r, P1, P2, C1, D1, C2, D2, ys, yx, yr, o0, o1, o2, o3] => do
@@ -174,11 +185,11 @@ def mproveSigma (instr : String) (a : List String) : Option Bytes :=
     let P1 ← ptOfHex P1; let P2 ← ptOfHex P2; let C1 ← ptOfHex C1; let D1 ← ptOfHex D1
     let C2 ← ptOfHex C2; let D2 ← ptOfHex D2
     let ys ← scOfHex ys; let yx ← scOfHex yx; let yr ← scOfHex yr
-    let o ← allSome [ptOfHex o0, ptOfHex o1, ptOfHex o2, ptOfHex o3]
-    let y0 := PtCodec.enc (ys • P1 + offs o 0)
-    let y1 := PtCodec.enc (yx • G + ys • D1 + offs o 1)
-    let y2 := PtCodec.enc (yx • G + yr • H + offs o 2)
-    let y3 := PtCodec.enc (yr • P2 + offs o 3)
+    let o ← allSome [offOfHex o0, offOfHex o1, offOfHex o2, offOfHex o3]
+    let y0 := encY o 0 (ys • P1)
+    let y1 := encY o 1 (yx • G + ys • D1)
+    let y2 := encY o 2 (yx • G + yr • H)
+    let y3 := encY o 3 (yr • P2)
     let c := (CtCtEq.challenges CT P1 P2 ⟨C1, D1⟩ ⟨C2, D2⟩ y0 y1 y2 y3 (0 : CSc) 0 0).1
     pure (PtCodec.enc P1 ++ PtCodec.enc P2 ++ PtCodec.enc C1 ++ PtCodec.enc D1 ++ PtCodec.enc C2 ++ PtCodec.enc D2 ++
           y0 ++ y1 ++ y2 ++ y3 ++ ScCodec.enc (c * s + ys) ++ ScCodec.enc (c * x + yx) ++ ScCodec.enc (c * r + yr))
@@ -186,10 +197,10 @@ def mproveSigma (instr : String) (a : List String) : Option Bytes :=
     let s ← scOfHex s; let x ← scOfHex x; let r ← scOfHex r
     let P ← ptOfHex P; let C ← ptOfHex C; let D ← ptOfHex D; let Cm ← ptOfHex Cm
     let ys ← scOfHex ys; let yx ← scOfHex yx; let yr ← scOfHex yr
-    let o ← allSome [ptOfHex o0, ptOfHex o1, ptOfHex o2]
-    let y0 := PtCodec.enc (ys • P + offs o 0)
-    let y1 := PtCodec.enc (yx • G + ys • D + offs o 1)
-    let y2 := PtCodec.enc (yx • G + yr • H + offs o 2)
+    let o ← allSome [offOfHex o0, offOfHex o1, offOfHex o2]
+    let y0 := encY o 0 (ys • P)
+    let y1 := encY o 1 (yx • G + ys • D)
+    let y2 := encY o 2 (yx • G + yr • H)
     let c := (CtCmtEq.challenges CT P ⟨C, D⟩ Cm y0 y1 y2 (0 : CSc) 0 0).1
     pure (PtCodec.enc P ++ PtCodec.enc C ++ PtCodec.enc D ++ PtCodec.enc Cm ++
           y0 ++ y1 ++ y2 ++ ScCodec.enc (c * s + ys) ++ ScCodec.enc (c * x + yx) ++ ScCodec.enc (c * r + yr))
@@ -197,10 +208,10 @@ def mproveSigma (instr : String) (a : List String) : Option Bytes :=
     let x ← scOfHex x; let r ← scOfHex r
     let Ps ← allSome [ptOfHex P1, ptOfHex P2]; let C ← ptOfHex C; let Ds ← allSome [ptOfHex D1, ptOfHex D2]
     let yr ← scOfHex yr; let yx ← scOfHex yx
-    let o ← allSome (os.map ptOfHex)
+    let o ← allSome (os.map offOfHex)
     let g : GCt CPt := ⟨C, Ds⟩
-    let yBs := PtCodec.enc (yr • H + yx • G + offs o 0) ::
-      (Ps.zipIdx.map fun (P, i) => PtCodec.enc (yr • P + offs o (i + 1)))
+    let yBs := encY o 0 (yr • H + yx • G) ::
+      (Ps.zipIdx.map fun (P, i) => encY o (i + 1) (yr • P))
     let t0 : CT := Validity.transcript0 CT 2 Ps g
     let c := (Validity.challengesDirect 2 t0 (⟨yBs, [], 0, 0⟩ : Validity.Proof CSc CPt)).1
     pure ((Ps.map PtCodec.enc).flatten ++ g.enc ++ yBs.flatten ++ ScCodec.enc (c * r + yr) ++ ScCodec.enc (c * x + yx))
@@ -209,10 +220,10 @@ def mproveSigma (instr : String) (a : List String) : Option Bytes :=
     let Ps ← allSome [ptOfHex P1, ptOfHex P2, ptOfHex P3]; let C ← ptOfHex C
     let Ds ← allSome [ptOfHex D1, ptOfHex D2, ptOfHex D3]
     let yr ← scOfHex yr; let yx ← scOfHex yx
-    let o ← allSome (os.map ptOfHex)
+    let o ← allSome (os.map offOfHex)
     let g : GCt CPt := ⟨C, Ds⟩
-    let yBs := PtCodec.enc (yr • H + yx • G + offs o 0) ::
-      (Ps.zipIdx.map fun (P, i) => PtCodec.enc (yr • P + offs o (i + 1)))
+    let yBs := encY o 0 (yr • H + yx • G) ::
+      (Ps.zipIdx.map fun (P, i) => encY o (i + 1) (yr • P))
     let t0 : CT := Validity.transcript0 CT 3 Ps g
     let c := (Validity.challengesDirect 3 t0 (⟨yBs, [], 0, 0⟩ : Validity.Proof CSc CPt)).1
     pure ((Ps.map PtCodec.enc).flatten ++ g.enc ++ yBs.flatten ++ ScCodec.enc (c * r + yr) ++ ScCodec.enc (c * x + yx))
@@ -222,12 +233,12 @@ def mproveSigma (instr : String) (a : List String) : Option Bytes :=
     let Cl ← ptOfHex Cl; let Dl ← allSome [ptOfHex D1l, ptOfHex D2l]
     let Ch ← ptOfHex Ch; let Dh ← allSome [ptOfHex D1h, ptOfHex D2h]
     let yr ← scOfHex yr; let yx ← scOfHex yx
-    let o ← allSome (os.map ptOfHex)
+    let o ← allSome (os.map offOfHex)
     let lo : GCt CPt := ⟨Cl, Dl⟩; let hi : GCt CPt := ⟨Ch, Dh⟩
     let tt := BatchedValidity.challengeT (Sc := CSc) CT 2 Ps lo hi
     let x := xl + xh * tt.1; let r := rl + rh * tt.1
-    let yBs := PtCodec.enc (yr • H + yx • G + offs o 0) ::
-      (Ps.zipIdx.map fun (P, i) => PtCodec.enc (yr • P + offs o (i + 1)))
+    let yBs := encY o 0 (yr • H + yx • G) ::
+      (Ps.zipIdx.map fun (P, i) => encY o (i + 1) (yr • P))
     let c := (Validity.challengesDirect 2 tt.2 (⟨yBs, [], 0, 0⟩ : Validity.Proof CSc CPt)).1
     pure ((Ps.map PtCodec.enc).flatten ++ lo.enc ++ hi.enc ++ yBs.flatten ++
           ScCodec.enc (c * r + yr) ++ ScCodec.enc (c * x + yx))
@@ -237,12 +248,12 @@ def mproveSigma (instr : String) (a : List String) : Option Bytes :=
     let Cl ← ptOfHex Cl; let Dl ← allSome [ptOfHex D1l, ptOfHex D2l, ptOfHex D3l]
     let Ch ← ptOfHex Ch; let Dh ← allSome [ptOfHex D1h, ptOfHex D2h, ptOfHex D3h]
     let yr ← scOfHex yr; let yx ← scOfHex yx
-    let o ← allSome (os.map ptOfHex)
+    let o ← allSome (os.map offOfHex)
     let lo : GCt CPt := ⟨Cl, Dl⟩; let hi : GCt CPt := ⟨Ch, Dh⟩
     let tt := BatchedValidity.challengeT (Sc := CSc) CT 3 Ps lo hi
     let x := xl + xh * tt.1; let r := rl + rh * tt.1
-    let yBs := PtCodec.enc (yr • H + yx • G + offs o 0) ::
-      (Ps.zipIdx.map fun (P, i) => PtCodec.enc (yr • P + offs o (i + 1)))
+    let yBs := encY o 0 (yr • H + yx • G) ::
+      (Ps.zipIdx.map fun (P, i) => encY o (i + 1) (yr • P))
     let c := (Validity.challengesDirect 3 tt.2 (⟨yBs, [], 0, 0⟩ : Validity.Proof CSc CPt)).1
     pure ((Ps.map PtCodec.enc).flatten ++ lo.enc ++ hi.enc ++ yBs.flatten ++
           ScCodec.enc (c * r + yr) ++ ScCodec.enc (c * x + yx))
@@ -252,21 +263,21 @@ def mproveSigma (instr : String) (a : List String) : Option Bytes :=
     let Cm ← ptOfHex Cm; let Cd ← ptOfHex Cd; let Cc ← ptOfHex Cc; let mx ← natOf mx
     let w0 ← scOfHex w0; let w1 ← scOfHex w1; let w2 ← scOfHex w2
     let n ← allSome ([n0, n1, n2, n3, n4].map scOfHex)
-    let o ← allSome [ptOfHex o0, ptOfHex o1, ptOfHex o2]
+    let o ← allSome [offOfHex o0, offOfHex o1, offOfHex o2]
     let m : CSc := ScCodec.ofNat mx
     let ctxB := PtCodec.enc Cm ++ PtCodec.enc Cd ++ PtCodec.enc Cc ++ natLE mx 8
     match branch, n with
     | "max", [zx, zd, zc, ceq, ym] =>
-      let ydB := PtCodec.enc (zx • G + zd • H + (-ceq) • Cd + offs o 1)
-      let ycB := PtCodec.enc (zx • G + zc • H + (-ceq) • Cc + offs o 2)
-      let ymB := PtCodec.enc (ym • H + offs o 0)
+      let ydB := encY o 1 (zx • G + zd • H + (-ceq) • Cd)
+      let ycB := encY o 2 (zx • G + zc • H + (-ceq) • Cc)
+      let ymB := encY o 0 (ym • H)
       let c := (Cap.challengeC CSc CT Cm Cd Cc mx ymB ydB ycB).1
       let cmax := c - ceq
       pure (ctxB ++ Cap.encodeProof ymB (cmax * w0 + ym) cmax ydB ycB zx zd zc)
     | "eq", [zm, cmax, yx, yd, yc] =>
-      let ymB := PtCodec.enc (zm • H + (-cmax) • Cm + (cmax * m) • G + offs o 0)
-      let ydB := PtCodec.enc (yx • G + yd • H + offs o 1)
-      let ycB := PtCodec.enc (yx • G + yc • H + offs o 2)
+      let ymB := encY o 0 (zm • H + (-cmax) • Cm + (cmax * m) • G)
+      let ydB := encY o 1 (yx • G + yd • H)
+      let ycB := encY o 2 (yx • G + yc • H)
       let c := (Cap.challengeC CSc CT Cm Cd Cc mx ymB ydB ycB).1
       let ceq := c - cmax
       pure (ctxB ++ Cap.encodeProof ymB zm cmax ydB ycB (ceq * w0 + yx) (ceq * w1 + yd) (ceq * w2 + yc))
